@@ -14,6 +14,7 @@ CONSTANTS
  InitChan <- Empty
  InitFifo = TRUE
  GenDepth = 0
+ LateParty = 99
 INVARIANTS Agreement NoDuplicate Integrity QValidity QTotality KnownIsAccepted
 PROPERTIES DeliveryStepP 
 CHECK_DEADLOCK FALSE
